@@ -1,6 +1,6 @@
 import UralModel.Model.Builders
 import UralModel.Lemmas.PctCodec
-import UralModel.Lemmas.StrSplit
+import UralModel.Lemmas.StrSplit20
 import UralModel.Lemmas.Protocol
 /-! Helper lemmas for the builder theorems of C20: what characters `quote` can produce, and
 how `urlsplit`'s query/fragment relate to the plain "first `#`, then first `?`" split. -/
@@ -108,7 +108,7 @@ theorem schemeChar_not_qf : ∀ c, isSchemeChar c = true → c ≠ '#' ∧ c ≠
 theorem splitScheme_prefix (url dflt : Str) :
     ∃ pre, url = pre ++ (splitScheme url dflt).2 ∧ '#' ∉ pre ∧ '?' ∉ pre := by
   unfold splitScheme
-  have hspec := splitFirst_spec url ':'
+  have hspec := splitFirst_spec_s20 url ':'
   cases hsf : splitFirst url ':' with
   | mk pre post =>
     rw [hsf] at hspec
@@ -149,14 +149,14 @@ theorem splitNetloc_prefix (url : Str) :
       rcases hm with hm | hm | hm
       · exact absurd hm (by decide)
       · exact absurd hm (by decide)
-      · have := mem_takeWhile _ _ _ hm
+      · have := mem_takeWhile_s20 _ _ _ hm
         exact absurd this (by decide)
     · intro hm
       simp only [List.mem_cons] at hm
       rcases hm with hm | hm | hm
       · exact absurd hm (by decide)
       · exact absurd hm (by decide)
-      · have := mem_takeWhile _ _ _ hm
+      · have := mem_takeWhile_s20 _ _ _ hm
         exact absurd this (by decide)
   · rw [if_neg hs]
     exact ⟨[], by simp⟩
@@ -182,9 +182,9 @@ theorem urlsplit_query_fragment (url dflt : Str) (r : SplitResult)
     have hP1 : '#' ∉ p1 ++ p2 := by simp [hq1, hq2]
     have hP2 : '?' ∉ p1 ++ p2 := by simp [hf1, hf2]
     unfold plainQuery plainFragment splitQuery splitFragment
-    rw [hclean, splitFirst_append_left _ _ _ hP1]
+    rw [hclean, splitFirst_append_left_s20 _ _ _ hP1]
     simp only []
-    rw [splitFirst_append_left _ _ _ hP2]
+    rw [splitFirst_append_left_s20 _ _ _ hP2]
     rw [← h]
     exact ⟨rfl, rfl⟩
 
@@ -228,9 +228,9 @@ theorem cleanUrl_eq_self (x : Str) (hhead : ∀ c rest, x = c :: rest → isC0Or
 
 theorem plainQuery_http (x : Str) : plainQuery ("http://".toList ++ x) = plainQuery x := by
   unfold plainQuery splitQuery splitFragment
-  rw [splitFirst_append_left _ _ '#' (by decide)]
+  rw [splitFirst_append_left_s20 _ _ '#' (by decide)]
   simp only []
-  rw [splitFirst_append_left _ _ '?' (by decide)]
+  rw [splitFirst_append_left_s20 _ _ '?' (by decide)]
 
 /-- `rstrip(chars)` keeps a prefix -/
 theorem rstripChars_prefix (y : Str) (cs : List Char) : ∃ suf, y = rstripChars y cs ++ suf := by
